@@ -417,7 +417,10 @@ def rule_shared_eigenvalue_check(rep: Report, repo: Repo):
             ra, rb = roles.role(c.args[0]), roles.role(c.args[1])
             fn = c.func
             fns = {norm(x) for x in ast.walk(fn) if isinstance(x, ast.Attribute) and norm(x).startswith("np.")}
-            good = {ra[0], rb[0]} == {"A", "B"} and {ra[1], rb[1]} == {"rows", "cols"} and fns <= {"np.equal", "np.isclose"} and bool(fns)
+            # all level pairs: an outer (column x row) comparison that does not look at which elements Y couples
+            mentions_y = any(isinstance(x, ast.Name) and x.id == "Y" for a_ in c.args[:2] for x in ast.walk(a_))
+            good = {ra[0], rb[0]} == {"A", "B"} and {ra[1], rb[1]} == {"rows", "cols"} and fns <= {"np.equal", "np.isclose"} and bool(fns) \
+                and not mentions_y
         ok_all = ok_all and good
         detail = norm(test)[:110]
     rep.check(ok_all, R, f"{MOD}::solve_sylvester_diagonal compares every eigenvalue of block i with every eigenvalue of block j",
